@@ -798,7 +798,7 @@ class Dict(dict, base.Symbolic, pg_typing.CustomTyping):
       value = self[key]
       with flags.allow_writable_accessors(True):
         del self[key]
-      return value if value != pg_typing.MISSING_VALUE else default
+      return value if pg_typing.MISSING_VALUE != value else default
     if default is base.RAISE_IF_NOT_FOUND:
       raise KeyError(key)
     return default
